@@ -1,4 +1,4 @@
-//@@ unit props=C05,C06,C08,C17
+//@@ unit props=C05,C06,C08,C17,C01,C02,C03,C14
 // Unit range: the `Range<T>` data structure of src/lib.rs (verbatim text), generic over `T: CellType`.  Serves C05;
 // its contracts (Range::range, from_sparse, accessors) are what the C08 / C17 units call.
 //
@@ -490,21 +490,21 @@ proof fn lemma_idx(i: int, j: int, h: int, w: int)
         r == (if self.has(absolute_position.0 as int, absolute_position.1 as int) {
                 Some(&self.at(absolute_position.0 as int, absolute_position.1 as int)) } else { None }),
 //@@ end
-//@@ fn src/lib.rs Range::from_sparse props=C05,C06 ret=r
+//@@ fn src/lib.rs Range::from_sparse props=C05,C06,C01,C02,C03,C08,C14 ret=r
 //@@ sig
     ensures
-        //# C05.sparse_wf
+        //# C05,C01,C02,C03,C14.sparse_wf
         r.wf(),
-        //# C05.sparse_empty
+        //# C05,C01,C02,C03,C14.sparse_empty
         r.nonempty() <==> cells@.len() > 0,
-        //# C05.sparse_bounds
+        //# C05,C01,C02,C03,C08,C14.sparse_bounds
         cells@.len() > 0 ==> is_bbox(cells@, r.lo(), r.hi()),
-        //# C05.sparse_placed
+        //# C05,C01,C02,C03,C08,C14.sparse_placed
         forall|i: int, j: int| r.has(i, j) && lastw(cells@, cells@.len() as int, i, j) >= 0 ==>
             r.at(i, j) == cells@[lastw(cells@, cells@.len() as int, i, j)].v(),
-        //# C05.sparse_default
+        //# C05,C01,C02,C03,C08,C14.sparse_default
         lawful::<T>() ==> forall|i: int, j: int| r.has(i, j) && lastw(cells@, cells@.len() as int, i, j) < 0 ==> r.at(i, j) == dflt::<T>(),
-        //# C05.sparse_inside
+        //# C05,C01,C02,C03,C14.sparse_inside
         forall|k: int| 0 <= k < cells@.len() ==> r.has((#[trigger] cells@[k]).p().0 as int, cells@[k].p().1 as int),
 //@@ before /let mut row_start/
             let ghost cs = cells@;
